@@ -316,9 +316,10 @@ def h_readheader():
         parts.append(decl(d))
     parts.append(Fn(NLC, r'void mp::internal::TextReader<Locale>::ReadHeader\(NLHeader\s*&?\s*header\)', 'void ReadHeader(NLHeader *header_p)',
                     contract='__CPROVER_requires(RD_LE && line_ >= 0 && line_ < 1000 && __CPROVER_w_ok(header_p, sizeof(NLHeader)) && header_p->num_ampl_options == 0 '
-                             '&& header_p->num_compl_conds == 0 && header_p->num_nl_compl_conds == 0) '
+                             '&& header_p->num_compl_conds == 0 && header_p->num_nl_compl_conds == 0 && header_p->num_logical_cons == 0) '
                              '__CPROVER_ensures(RD_LE && header_p->num_vars >= 0 && header_p->num_algebraic_cons >= 0 && header_p->num_objs >= 0 && '
                              'header_p->num_funcs >= 0 && header_p->num_ampl_options >= 0 && header_p->num_ampl_options <= MAX_AMPL_OPTIONS && '
+                             '(long)header_p->num_algebraic_cons + header_p->num_logical_cons <= INT_MAX && header_p->num_logical_cons >= 0 && '
                              '(long)header_p->num_vars + header_p->num_common_exprs_in_both + header_p->num_common_exprs_in_cons + '
                              'header_p->num_common_exprs_in_objs + header_p->num_common_exprs_in_single_cons + '
                              'header_p->num_common_exprs_in_single_objs <= INT_MAX) '
@@ -333,7 +334,7 @@ def h_readheader():
                     label='mp::internal::TextReader::ReadHeader', nmatches=1))
     parts.append('''
 void harness(void) { vp_one = 1; vp_mkreader(); line_ = 1; NLHeader h;
-  h.num_ampl_options = 0; h.num_compl_conds = 0; h.num_nl_compl_conds = 0;       /* NLHeader() zero-initialises (nl-header.h) */
+  h.num_ampl_options = 0; h.num_compl_conds = 0; h.num_nl_compl_conds = 0; h.num_logical_cons = 0;       /* NLHeader() zero-initialises (nl-header.h) */
   ReadHeader(&h); VP_REACH("normal return"); }
 ''')
     return Harness('C02.text.ReadHeader', 'C02', parts, enforce='ReadHeader', loop_contracts=True,
@@ -606,4 +607,6 @@ def _harnesses(tier, seed):
     hs.append(h_doreporterror())
     hs += [h_bin_read()] + [h_bin_int(n) for n in BIN] + [h_bin_uint(), h_bin_double(), h_bin_string(), h_convert()]
     hs += [h_nlr_uint1(), h_nlr_uint2(), h_nlr_numargs(), h_nlr_opcode(), h_nlr_linear()]
+    from specs import C02_items
+    hs += C02_items.harnesses()
     return hs
